@@ -152,6 +152,17 @@ func (c *Check) keyGrammar(prefix string, families map[string]bool) {
 			}
 			b := kt.Builders[f.Name]
 			if b == nil {
+				// a key fragment helper (no prefix of its own): it must be fully understood
+				if sh, ok := c.P.shapeOfBuilder(kt, f); ok && len(sh) > 0 {
+					bad := ""
+					for _, sg := range sh {
+						if sg.Kind == "Unknown" {
+							bad = sg.Text
+						}
+					}
+					c.req(bad == "", prefix+".K1", f.Name, f.Body.Pos(), "key fragment "+sh.String()+condStr(bad != "", " — segment not understood: "+bad))
+					continue
+				}
 				c.undecided(prefix+".K1", f.Name, f.Body.Pos(), "key builder is not a single append-chain over a prefix variable")
 				continue
 			}
@@ -256,16 +267,14 @@ func (c *Check) checkStringsKey(prefix string, f *Func) {
 	// structural: one range loop over the parameter appending elem then Sep; result trimmed by one byte
 	okLoop, okTrim := false, false
 	for _, pa := range c.P.PathsOf(f) {
-		for _, ev := range pa.Events {
-			if ev.Kind == EvAssign && ev.Val != nil {
-				if _, ok := ev.Val.Match("(append (append $R (spread (conv []byte (elem P0)))) (spread @types.EmptyByte))"); ok {
-					okLoop = true
-				}
-			}
-		}
 		for _, r := range pa.Ret {
-			if _, ok := r.Match("(slice $R #0 (- (len $R) #1))"); ok {
-				okTrim = true
+			b, ok := r.Match("(slice $J $LO (- (len $J) #1))")
+			if !ok || !(b["$LO"].IsAt("#0") || b["$LO"].IsAt("_")) {
+				continue
+			}
+			okTrim = true
+			if _, ok := b["$J"].Match("(append (append $Z (spread (conv []byte (elem P0)))) (spread @types.EmptyByte))"); ok {
+				okLoop = true
 			}
 		}
 	}
